@@ -383,6 +383,9 @@ def gen(rng, tier):
                "op": rng.choice([["shiftR", 1, "SVD"], ["setcanon", 2, "SVD"], ["normalize", "B", "SVD"]])}
     for _ in range({"quick": 12, "thorough": 100, "search": 30}.get(tier, 12)):
         yield {"kind": "pad-error", "sub": rng.randrange(1 << 30)}
+    # list model <-> Matrix model bridge (Lemmas/MpsBridge.lean) on real tensors
+    for _ in range({"quick": 40, "thorough": 300, "search": 80}.get(tier, 40)):
+        yield {"kind": "bridge", "sub": rng.randrange(1 << 30)}
 
 
 # ----------------------------------------------------------------------------------------------- oracles
@@ -822,6 +825,204 @@ def run_canon_tables(inp):
     return out
 
 
+# ----------------------------------------------------------------------------------------------- bridge (list model <-> Matrix model)
+BRIDGE = {"n": 0, "bad": 0, "worst": 0.0, "detail": ""}
+
+
+def pad_slice(m, n):
+    """Lemmas/MpsBridge.toMat: a bond matrix read in the uniform index type Fin n (positions outside are 0)"""
+    out = np.zeros((n, n), dtype=complex)
+    out[: m.shape[0], : m.shape[1]] = m
+    return out
+
+
+def to_matrix_chain(ts, n):
+    """Lemmas/MpsBridge.toMatrixChain: site tensor -> physical index -> n x n matrix"""
+    return [[pad_slice(t[s], n) for s in range(t.shape[0])] for t in ts]
+
+
+def chain_entry(chain, cfg):
+    n = chain[0][0].shape[0]
+    m = np.eye(n, dtype=complex)
+    for site, s in zip(chain, cfg):
+        m = m @ site[s]
+    return m[0, 0]
+
+
+def cfg_of_index(dims, idx):
+    cfg = []
+    for d in dims:
+        cfg.append(idx % d)
+        idx //= d
+    return cfg
+
+
+def padded_vec(chain, dims):
+    """all amplitudes by the padded-matrix route, in `to_vec` order (site 0 least significant): the (0,0) entry of the
+    chain product — the right-hand side of `amp_eq_chain` (NaN where a physical index does not exist in the chain)"""
+    total = int(np.prod(dims))
+    out = []
+    for idx in range(total):
+        cfg = cfg_of_index(dims, idx)
+        ok = len(cfg) == len(chain) and all(s < len(site) for site, s in zip(chain, cfg))
+        out.append(chain_entry(chain, cfg) if ok else complex("nan"))
+    return np.array(out)
+
+
+def well_shaped_chain(ts, n):
+    """Lemmas/MpsBridge.wellShapedChain on the real tensors"""
+    if not ts:
+        return False
+    for t in ts:
+        if t.ndim != 3 or min(t.shape) < 1 or t.shape[1] > n or t.shape[2] > n:
+            return False
+    if any(ts[i].shape[2] != ts[i + 1].shape[1] for i in range(len(ts) - 1)):
+        return False
+    return ts[0].shape[1] == 1 and ts[-1].shape[2] == 1
+
+
+def bridge_note(dev, scale, what, probs, tol=1e-10):
+    BRIDGE["n"] += 1
+    rel = float(dev) / max(1.0, float(scale))
+    BRIDGE["worst"] = max(BRIDGE["worst"], rel)
+    if not rel <= tol:
+        BRIDGE["bad"] += 1
+        BRIDGE["detail"] = what
+        probs.append(f"{what}: deviation {rel:.3e}")
+
+
+def run_bridge(inp):
+    """The statements of Lemmas/MpsBridge.lean / C10.15-C10.18 checked on the real code's tensors, independently of the Lean
+    model: `to_vec` = (0,0) entry of the zero-padded matrix chain; the real QR shift is the Matrix-level replacement
+    A, B -> Q, R*B; the real flip is transpose + reverse of the padded matrices; the real padding does not change the padded
+    matrices.  Each real move is also tied to the list model through the driver (same requests as the sequence kinds)."""
+    rng = random.Random(inp["sub"])
+    nprng = np.random.default_rng(inp["sub"])
+    L, dims, bonds, ts, gauges = random_mps(rng, nprng, lmax=5, chimax=3)
+    while int(np.prod(dims)) > 128:
+        L, dims, bonds, ts, gauges = random_mps(rng, nprng, lmax=5, chimax=3)
+    mps = MPS(L, tensors=[t.copy() for t in ts], physical_dimensions=list(dims))
+    tag = f"br{inp['sub']}"
+    out = []
+    with observed(mps):
+        # --- amp_eq_chain
+        n = max(bonds)
+        v0 = mps.to_vec()
+        scale = float(np.max(np.abs(v0))) if v0.size else 1.0
+        probs = []
+        if not well_shaped_chain(mps.tensors, n):
+            probs.append(f"tensors of a freshly built MPS are not a well-shaped chain: {[t.shape for t in mps.tensors]}")
+        pv = padded_vec(to_matrix_chain(mps.tensors, n), dims)
+        bridge_note(np.max(np.abs(pv - v0)), scale, "to_vec vs (0,0) entry of the padded matrix chain", probs)
+        k = pow2(v0)
+        out.append({"kind": "bridge-vec", "req": scaled("vec " + req_tensors(mps.tensors), k), "impl": " ".join(fnum(z, k) for z in v0),
+                    "oracle": {"ok": not probs, "detail": "; ".join(probs) or f"n={n} L={L} dims={dims} bonds={bonds}"},
+                    "sig": f"bridge-vec:{dims}:{bonds}", "nontrivial": L > 1, "id": f"{tag}.vec"})
+        # --- executable QR shift = Matrix-level replacement A, B -> Q, R*B
+        if L >= 2:
+            i = rng.randrange(L - 1)
+            before = [t.copy() for t in mps.tensors]
+            events, _, _, _, exc = record(lambda: mps.shift_orthogonality_center_right(i, "QR"))
+            qr = [e for e in events if e["ev"] == "qr" and "Q" in e and e.get("Bnew") is not None]
+            probs = []
+            if exc or len(qr) != 1:
+                probs.append(f"shift_orthogonality_center_right({i}) raised {exc} / made {len(qr)} QR calls")
+            else:
+                e = qr[0]
+                a, b, q, r, anew, bnew = e["A"], e["B"], e["Q"], e["R"], e["Anew"], e["Bnew"]
+                phys, left, right = a.shape
+                kk = r.shape[0]
+                shaped = q.shape == (phys * left, kk) and r.shape == (kk, right) and kk >= 1
+                if not shaped:  # qrShaped
+                    probs.append(f"QR factors not of the shape assumed by qrShaped: Q {q.shape} R {r.shape} A {a.shape}")
+                else:
+                    n2 = max(n, kk)
+                    sc = max(1.0, float(np.max(np.abs(a))), float(np.max(np.abs(b))))
+                    bridge_note(np.max(np.abs(q @ r - a.reshape(phys * left, right))), sc, "hypothesis A = Q R of the executable shift", probs)
+                    dq = max(float(np.max(np.abs(pad_slice(anew[s], n2) - pad_slice(q[s * left:(s + 1) * left, :], n2)))) for s in range(phys))
+                    bridge_note(dq, sc, "new left tensor vs reshape of Q (padded matrices)", probs, tol=0.0)
+                    db = max(float(np.max(np.abs(pad_slice(bnew[s], n2) - pad_slice(r, n2) @ pad_slice(b[s], n2)))) for s in range(b.shape[0]))
+                    bridge_note(db, sc * sc, "new right tensor vs R * B (padded matrices)", probs, tol=1e-12)
+                    if not well_shaped_chain(mps.tensors, n2):
+                        probs.append(f"chain after the shift is not well-shaped: {[t.shape for t in mps.tensors]}")
+                    pv = padded_vec(to_matrix_chain(mps.tensors, n2), dims)
+                    bridge_note(np.max(np.abs(pv - v0)), scale, "amplitudes after the shift (padded route) vs to_vec before", probs)
+                    kq = pow2(anew, bnew)
+                    req = "qr " + " ".join([req_tensor(a), req_tensor(b), req_mat(q), req_mat(r)])
+                    out.append({"kind": "bridge-qr", "req": scaled(req, kq), "impl": impl_tensor(anew, kq) + " ; " + impl_tensor(bnew, kq),
+                                "oracle": {"ok": not probs, "detail": "; ".join(probs) or f"site {i} k={kk}"},
+                                "sig": f"bridge-qr:{a.shape}:{b.shape}:{kk}", "nontrivial": kk > 1, "id": f"{tag}.qr"})
+            if probs and not (out and out[-1]["kind"] == "bridge-qr"):
+                out.append({"kind": "bridge-qr", "req": None, "impl": None, "oracle": {"ok": False, "detail": "; ".join(probs)},
+                            "sig": "bridge-qr:failed", "id": f"{tag}.qr"})
+        # --- executable flip = Alg.flip of the padded matrices
+        before = [t.copy() for t in mps.tensors]
+        nb = max(max(t.shape[1], t.shape[2]) for t in before)
+        _, _, _, _, exc = record(lambda: mps.flip_network())
+        probs = []
+        if exc or len(mps.tensors) != L:
+            probs.append(f"flip_network raised {exc}")
+        else:
+            dev = 0.0
+            for kk in range(L):
+                old = before[L - 1 - kk]
+                new = mps.tensors[kk]
+                if new.shape[0] != old.shape[0]:
+                    probs.append("flip changed a physical dimension")
+                    break
+                dev = max(dev, max(float(np.max(np.abs(pad_slice(new[s], nb) - pad_slice(old[s], nb).T))) for s in range(old.shape[0])))
+            bridge_note(dev, 1.0, "flipped tensors vs transpose + reverse of the padded matrices", probs, tol=0.0)
+            if not well_shaped_chain(mps.tensors, nb):
+                probs.append("flipped chain is not well-shaped")
+            if not probs:
+                ch_old, ch_new = to_matrix_chain(before, nb), to_matrix_chain(mps.tensors, nb)
+                dev = 0.0
+                for idx in range(int(np.prod(dims))):
+                    cfg = cfg_of_index(dims, idx)
+                    dev = max(dev, abs(chain_entry(ch_new, list(reversed(cfg))) - chain_entry(ch_old, cfg)))
+                bridge_note(dev, scale, "amplitude of the flipped chain at the reversed configuration", probs)
+            else:
+                BRIDGE["n"] += 1
+                BRIDGE["bad"] += 1
+                BRIDGE["detail"] = probs[0]
+        kf = pow2(*mps.tensors)
+        small = sum(t.size for t in before) <= 160
+        out.append({"kind": "bridge-flip", "req": scaled("flip " + req_tensors(before), kf) if small and not exc else None,
+                    "impl": impl_tensors(mps.tensors, kf) if small and not exc else None,
+                    "oracle": {"ok": not probs, "detail": "; ".join(probs) or f"L={L}"},
+                    "sig": f"bridge-flip:{[t.shape for t in before]}", "nontrivial": L > 1, "id": f"{tag}.flip"})
+        if not exc:
+            mps.flip_network()  # back (not recorded)
+        # --- executable padding loop: invisible on the padded matrices
+        before = [t.copy() for t in mps.tensors]
+        need = max(max(t.shape[1], t.shape[2]) for t in before)
+        legal = all(t.shape[2] <= 2 ** min(j + 1, L - 1 - j) for j, t in enumerate(before[:-1]))
+        if legal:
+            target = max(need, rng.choice([1, 2, 3, 4, 6]))
+            _, _, pad_entry, _, exc = record(lambda: mps.pad_bond_dimension(target))
+            probs = []
+            if exc or pad_entry is None:
+                probs.append(f"pad_bond_dimension({target}) raised {exc} on legal bonds {[t.shape for t in before]}")
+            else:
+                nn = max(max(t.shape[1], t.shape[2]) for t in pad_entry)
+                dev = max(max(float(np.max(np.abs(pad_slice(p_[s], nn) - pad_slice(o_[s], nn)))) for s in range(o_.shape[0]))
+                          for p_, o_ in zip(pad_entry, before))
+                bridge_note(dev, 1.0, "padded tensors vs original tensors as padded matrices", probs, tol=0.0)
+                if not well_shaped_chain(pad_entry, nn):
+                    probs.append(f"padded chain is not well-shaped: {[t.shape for t in pad_entry]}")
+                pv = padded_vec(to_matrix_chain(pad_entry, nn), dims)
+                bridge_note(np.max(np.abs(pv - v0)), scale, "amplitudes of the padded chain (padded route) vs to_vec before", probs)
+            small = pad_entry is not None and sum(t.size for t in pad_entry) <= 400
+            kp = pow2(*pad_entry) if small else 0
+            out.append({"kind": "bridge-pad", "req": scaled(f"pad {target} " + req_tensors(before), kp) if small else None,
+                        "impl": impl_tensors(pad_entry, kp) if small else None,
+                        "oracle": {"ok": not probs, "detail": "; ".join(probs) or f"target {target}"},
+                        "sig": f"bridge-pad:{target}:{[t.shape for t in before]}",
+                        "nontrivial": pad_entry is not None and any(a_.shape != b_.shape for a_, b_ in zip(pad_entry, before)),
+                        "id": f"{tag}.pad"})
+    return out
+
+
 def run(inp):
     """an exception that comes out of the real package while the harness exercises it (e.g. `to_vec()` on a network a move
     left inconsistent) is a failure of the property on this input, not a harness crash"""
@@ -849,6 +1050,8 @@ def run_inner(inp):
         return run_pad_error(inp)
     if k == "canon-tables":
         return run_canon_tables(inp)
+    if k == "bridge":
+        return run_bridge(inp)
     raise ValueError(k)
 
 
@@ -861,6 +1064,9 @@ def spec():
         {"name": "observations (not verdicts): sign/phase of the scalar dropped by normalize, state of the MPS after a refused pad",
          "ok": True, "counts": dict(COUNTS), "largest_deviation_accepted_by_the_oracles": dict(WORST),
          "oracle_tolerances": {"vec_rel": VEC_TOL, "isometry": ISO_TOL, "scalar_multiple": 1e-9}},
+        {"name": "bridge (Lemmas/MpsBridge.lean) on the real tensors: to_vec = (0,0) entry of the zero-padded matrix chain; QR shift = "
+                 "A,B -> Q,R*B; flip = transpose+reverse; pad invisible; hypotheses wellShapedChain / qrShaped / A = QR",
+         "ok": BRIDGE["bad"] == 0, "n": BRIDGE["n"], "worst_residual": BRIDGE["worst"], "detail": BRIDGE["detail"]},
     ]
 
 
